@@ -156,6 +156,13 @@ class Machine(RuleBasedStateMachine):
     def check(self, kind, name, value):
         self._do({"op": "check", "kind": kind, "name": name, "value": value})
 
+    @rule(index=st.integers(0, 50))
+    def recheck(self, index):
+        """The same (element kind, name, value) again, after whatever registrations happened since."""
+        checks = [o for o in self.h.history if o["op"] == "check"]
+        if checks:
+            self._do(copy.deepcopy(checks[index % len(checks)]))
+
     def teardown(self):
         self.h.restore()
         if self._stats is not None:
